@@ -316,7 +316,10 @@ def equal(op1: Any, op2: Any) -> bool:
 def not_equal(op1: Any, op2: Any) -> bool:
     if isinstance(op1, float) and math.isnan(op1):
         return not isinstance(op2, float) or not math.isnan(op2)
-    return bool(op1 != op2)
+    try:
+        return bool(op1 != op2)
+    except TypeError:
+        return True  # values of not comparable types, e.g. xs:date and xs:time
 
 
 def match_wildcard(name: Optional[str], wildcard: str) -> bool:
